@@ -1,6 +1,7 @@
 """C09 Range formatting touches only statements inside the range - static necessary conditions."""
 import r_skip
 import r_range
+import r_indent
 
 EXPLANATION = (
     "(a) on the NotInRange edge of should_format_node, format_stmt / format_last_stmt only enter the stmt_block "
@@ -11,7 +12,13 @@ EXPLANATION = (
     "test itself: should_format_node touches the node offsets and the bounds through order comparisons only, so every "
     "ordering of (start, end, start bound, end bound) and every combination of present bounds is enumerated against "
     "the MIR paths and must yield NotInRange exactly when the node starts before the start bound or ends after the end "
-    "bound. Not decided: 'in-range statements equal the whole-file result' (layout).")
+    "bound. (R-INDENT) the block-indent level with which a nested block is reached, as an abstract level relative to "
+    "the holding statement's shape (increment_block_indent = +1, level-preserving Shape methods classified from the MIR "
+    "of shape.rs, captured shapes followed through closure aggregates, composed over the calls between the range-only "
+    "visitor's functions): exactly +1 from both entries of the range-only visitor and at every format_block call of the "
+    "ordinary formatters - the necessary condition for an in-range statement nested in an out-of-range one to get the "
+    "indentation whole-file formatting gives it. Not decided: the rest of 'in-range statements equal the whole-file "
+    "result' (layout; tables and hanging expressions add indent levels the range-only visitor does not model).")
 ASSUMPTIONS = ["to_owned/clone of a full_moon node reproduces its tokens and trivia verbatim",
                "rustc MIR and Instance::try_resolve are trusted"]
 
@@ -20,4 +27,4 @@ def run(ctx):
     return [r_skip.rule_skip_edge(ctx, "C09", statuses=("NotInRange",)), r_skip.rule_block_path(ctx, "C09"),
             r_skip.rule_post(ctx, "C09"), r_skip.rule_eof(ctx, "C09"),
             r_skip.rule_sort_guard(ctx, "C09", must_block=("NotInRange",)),
-            r_range.rule_range(ctx, "C09")]
+            r_range.rule_range(ctx, "C09"), r_indent.rule_indent(ctx, "C09")]
